@@ -4,7 +4,7 @@
    JsonString.v, Utf8Facts.v, TablesOk.v. *)
 From Coq Require Import Floats Permutation.
 From JM Require Import Model.Base Model.Num Model.Utf8 Model.Value Model.JsonText Model.Lexer Model.Parser Model.Interp Model.Api
-     Spec.Grammar Proofs.ValueFacts Proofs.TablesOk Proofs.Utf8Facts Proofs.JsonString Proofs.LexView Proofs.LexSpell Proofs.LexText Proofs.LexAdj Proofs.JsonRound
+     Spec.Grammar Proofs.ValueFacts Proofs.TablesOk Proofs.Utf8Facts Proofs.JsonString Proofs.LexView Proofs.LexSpell Proofs.LexText Proofs.LexAdj Proofs.ParserSound Proofs.LexExact Proofs.JsonRound
      Inst.FloatNum Run.Checker.
 From JM Require Import gen.Tables.
 
@@ -139,6 +139,27 @@ Theorem C14_compact_layout_is_well_separated :
   forall l, Forall (fun t => lexable t = true) l -> adj_ok (compact l) /\ map fst (compact l) = l.
 Proof. exact (fun l H => conj (compact_adj l H) (map_fst_compact l)). Qed.
 
+(* ---- the lexer against the lexical grammar, for every byte string ----
+   Lex s l (Proofs/LexExact.v): s is whitespace and token texts, each token followed
+   by something that cannot extend it, and l lists their types and values.  A token
+   text (tok_text) is: an operator's text; a name [A-Za-z_][A-Za-z0-9_]* standing for
+   itself; a minus sign or digit followed by digits; "body" with every quote and
+   backslash of the body escaped, standing for the JSON decoding of the body; 'body'
+   with no bare quote, standing for the body with \' read as '; `body` with no bare
+   backtick, standing for the body with \` read as `.
+   The lexer returns l exactly when Lex s l; the reading is unique; a text without a
+   reading is refused. *)
+Theorem C14_lexer_is_exactly_the_lexical_grammar :
+  forall e l, Lex e l <-> exists out, tokenize e = Ok (out ++ [Token tEOF [] (zlen e) 0]) /\ map tv out = l.
+Proof. exact lex_exact. Qed.
+
+Theorem C14_text_without_a_reading_is_refused :
+  forall e, (forall l, ~ Lex e l) <-> exists err, tokenize e = Err err.
+Proof. exact lex_refuses. Qed.
+
+Theorem C14_reading_is_unique : forall e l1 l2, Lex e l1 -> Lex e l2 -> l1 = l2.
+Proof. exact lex_deterministic. Qed.
+
 (* ---- the machinery behind: cursor lexer = lexer over the remaining input;
    UTF-8 and JSON string escaping round trips ---- *)
 Theorem C14_lexer_view : forall e, tokenize e = tokenizeS e.
@@ -172,6 +193,9 @@ Print Assumptions C14_token_list_lexes.
 Print Assumptions C14_whitespace_is_insignificant.
 Print Assumptions C14_adjacent_tokens_lex.
 Print Assumptions C14_compact_layout_is_well_separated.
+Print Assumptions C14_lexer_is_exactly_the_lexical_grammar.
+Print Assumptions C14_text_without_a_reading_is_refused.
+Print Assumptions C14_reading_is_unique.
 Print Assumptions C14_lexer_view.
 Print Assumptions C14_utf8_round_trip.
 Print Assumptions C14_json_string_round_trip.
@@ -193,3 +217,16 @@ Example C14_example :
    | _ => false end &&
    raw_ok (str "it's \ ok") && paired (str """a`b""") && negb (raw_ok (str "a\")))%bool = true.
 Proof. vm_compute. reflexivity. Qed.
+
+(* the lexical grammar is not empty talk: a text with every kind of token, some of
+   them touching, an escaped quote in a raw string, a non-canonical escape in a quoted
+   name, and its reading *)
+Example C14_lex_example :
+  Lex (str " a.""b\u0063""[?x<=`1`]|'it\'s'!=-12")
+      [(tUnquotedIdentifier, str "a"); (tDot, str "."); (tQuotedIdentifier, str "bc"); (tFilter, str "[?");
+       (tUnquotedIdentifier, str "x"); (tLTE, str "<="); (tJSONLiteral, str "1"); (tRbracket, str "]"); (tPipe, str "|");
+       (tStringLiteral, str "it's"); (tNE, str "!="); (tNumber, str "-12")].
+Proof.
+  apply lex_exact. exists (match tokenize (str " a.""b\u0063""[?x<=`1`]|'it\'s'!=-12") with Ok ts => removelast ts | _ => [] end).
+  split; vm_compute; reflexivity.
+Qed.
